@@ -70,7 +70,13 @@ func runC02(r *Run) {
 			}
 		}
 	}
+	// slab sizes whose index-slab fan-out is even (see C01)
+	for _, T := range []uint32{260, 300} {
+		ts = append(ts, TrajSpecs(r.ID, "map-grow-lim", 110, 40, 111, 7, 1, T, []string{"t", "limM"}, tor)...)
+	}
 	r.ExploreSpecs(ts)
+	// magnitudes: thousands of entries, four-level trees, collapse back to a lone root
+	r.RunTaskGroup("maps of 5 000 small / 2 500 limit-sized entries: build, probe, reopen, drain to empty", "bigtree", bigTreeArgs("map-tiny", "map-lim"))
 	// one collision group grown to 258 keys (shared first digest / first two digests / all digests) under the default
 	// collision limit: dictionary semantics throughout, incl. the one refusal the limit prescribes
 	r.RunTaskGroup("one collision group grown to 258 keys at the default limit", "colldeep", collDeepArgs())
